@@ -136,6 +136,10 @@ class StmtMixin:
     def bind(self, target, v):
         ctx = self.ctx
         if isinstance(target, ast.Name):
+            vv = getattr(ctx, "var_version", None)
+            if vv is None:
+                vv = ctx.var_version = {}
+            vv[target.id] = vv.get(target.id, 0) + 1
             self.env[target.id] = v
         elif isinstance(target, (ast.Tuple, ast.List)):
             if isinstance(v, Cell) and v.kind == "list" and v.sym is None:
@@ -351,7 +355,20 @@ class StmtMixin:
         ctx = self.ctx
         v = self.eval(s.test)
         if isinstance(v, Opaque) or getattr(v, "unknown", False):
-            take = ctx.decide_opaque("if-opaque")
+            # the same test over unchanged variables has the same (unknown) outcome: correlate the forks
+            names = sorted({n.id for n in ast.walk(s.test) if isinstance(n, ast.Name)})
+            vers = getattr(ctx, "var_version", {})
+            has_call = any(isinstance(n, ast.Call) and not (isinstance(n.func, ast.Name) and n.func.id in ("len", "isinstance"))
+                           for n in ast.walk(s.test))
+            key = (ast.unparse(s.test), tuple(vers.get(n, 0) for n in names), len(self.frames))
+            memo = getattr(ctx, "opaque_memo", None)
+            if memo is None:
+                memo = ctx.opaque_memo = {}
+            if not has_call and key in memo:
+                take = memo[key]
+            else:
+                take = ctx.decide_opaque("if-opaque")
+                memo[key] = take
         else:
             t = ctx.truth(v)
             take = t if isinstance(t, bool) else ctx.decide(t, "if")
